@@ -121,6 +121,12 @@ def inject_hostile(case, g):
     n = g.rng.randint(0, 2)
     for j in range(n):
         ctx[f"hostile{j}"] = ("__hostile__", g.rng.choice(MODES), f"t{j}")
+    if n == 2 and g.chance(0.6):
+        # a node REPLACES an existing key by a distinct object: the delta collector must compare old and new value
+        same_token = g.chance(0.5)
+        if same_token:
+            ctx["hostile1"] = ("__hostile__", ctx["hostile1"][1], "t0")
+        case["nodes"] = [{"processor": "rename:hostile0:hostile1"}] + list(case["nodes"])
     return ctx
 
 
@@ -158,8 +164,16 @@ def check_case(run, case, detail, history, g, scratch):
                       f"untraced run {outcome(base)[:2]} but traced run (detail={detail}) {outcome(traced)[:2]}",
                       dict(witness, untraced=_safe(outcome(base)), traced=_safe(outcome(traced))))
     # ---- (2) reproducibility: fresh pipelines, with a history in between
-    for h in history:
-        account.real_run(h["nodes"], h["data"], h["ctx"], scratch=scratch)
+    for hi, h in enumerate(history):
+        if hi % 2 == 0:
+            # traced history runs at OTHER detail levels (drivers are separate objects; their settings must not leak)
+            others = [d for d in DETAILS if d != detail and d != "all"] or ["repr"]
+            other = others[(hi // 2) % len(others)]
+            htr = tc.traced_run(h["nodes"], h["data"], h["ctx"], detail=other, mode="file", scratch=scratch)
+            shutil.rmtree(htr.tdir, ignore_errors=True)
+            run.count("history_runs_traced_other_detail")
+        else:
+            account.real_run(h["nodes"], h["data"], h["ctx"], scratch=scratch)
         run.count("history_runs")
     traced2, recs2 = real(detail)
     n1 = [tc.normalise(r) for r in recs1 or []]
@@ -297,7 +311,7 @@ def run(run):
                 ex = gen.add_exotic_parameter(case, g)
                 case["nodes"], case["ctx"] = ex["nodes"], ex["ctx"]
                 run.count("cases_with_exotic_parameter_value")
-            history = [hg.pipeline(max_len=4, fault_bias=0.2) for _ in range(g.rng.randint(0, 6 if run.tier == "quick" else 10))]
+            history = [hg.pipeline(max_len=4, fault_bias=0.2) for _ in range(g.rng.randint(1, 6 if run.tier == "quick" else 10))]
             details = [DETAILS[i % len(DETAILS)]] if run.tier == "quick" else DETAILS[:3]
             for detail in details:
                 check_case(run, case, detail, history, g, scratch)
